@@ -13,7 +13,7 @@ def run(ctx):
         "contract, checked by the same rule code on the .py ast and on the Cython-parsed .pyx; the per-configuration "
         "policies derived from the two implementations (literal set, decodable set, '+' handling, escape handling) are "
         "equal for all nine configurations (T7); constructor keywords/defaults agree in .py, .pyx and .pyi; look-ahead "
-        "reads are bounded (LA); a consumed unit is never dropped silently (CH2). Not decided: extensional equality on "
+        "reads are bounded (LA); a consumed unit is never dropped silently (CH2). (PX9) a code unit of the text reaches a narrower C type only under a bound. Not decided: extensional equality on "
         "all strings (look-ahead scanner vs byte state machine).")
     pols, cfgs = quoter_audits(ctx)
     ctx.rule("T7", floor=9, what="derived policies of the two backends agree")
@@ -28,6 +28,8 @@ def run(ctx):
            f"unquoter constructors differ: py {ip} {mp} vs pyx {ic} {mc}", sample="same inner quoters, same options")
     pyi_check(ctx)
     drop_stage(ctx)
+    from ..rules import pyxres
+    pyxres.px9(ctx)     # the compiled scanner compares whole code points, as the pure-Python one does (no silent C narrowing)
     from ..rules.immut import im9
     im9(ctx)        # neither implementation may keep per-instance state between calls (the other one does not)
 
